@@ -33,6 +33,8 @@ import (
 )
 
 type Clause struct {
+	Trusted  bool // "ensures!": assumed at call sites, not checked against the body (listed)
+	Optional bool // "?": only where evaluable (speaks about locals / dynamic values)
 	Label string
 	Src   string
 	Line  string // file:line
@@ -56,6 +58,9 @@ type Contract struct {
 	Props      []string
 	Trusted    []string
 	MaxPaths   int
+	GhostSets  []Clause            // "field(expr) := expr" applied at call sites after the frame havoc
+	Ghosts     []string            // ghost variables (int) bound to fresh symbols
+	CallAsserts map[string][]Clause // "<callee short name>#<ordinal>" -> assertions checked before that call
 }
 
 type SpecFunc struct {
@@ -75,6 +80,7 @@ type ContractSet struct {
 	Order  []string
 	Funcs  map[string]*SpecFunc
 	Macros map[string]*SpecMacro
+	GhostFields map[string]bool
 	Pure   []string // patterns
 	Files  []string
 	Axioms []Clause
@@ -88,6 +94,7 @@ var reHead = regexp.MustCompile(`^(func|extern)\s+(\S+)\s*$`)
 var reSpecFunc = regexp.MustCompile(`^spec\s+func\s+(\w+)\s*\(([^)]*)\)\s*(\w+)\s*$`)
 var reSpecMacro = regexp.MustCompile(`^spec\s+macro\s+(\w+)\s*\(([^)]*)\)\s*=\s*(.+)$`)
 var reInv = regexp.MustCompile(`^loop#(\d+)\s*:\s*(.+)$`)
+var reProp = regexp.MustCompile(`C\d+(\([^)]*\))?`)
 var reLabel = regexp.MustCompile(`^@([\w.-]+)\s+(.+)$`)
 
 func (cs *ContractSet) loadFile(path string) error {
@@ -160,6 +167,17 @@ func (cs *ContractSet) loadFile(path string) error {
 			cs.Macros[sm.Name] = sm
 			continue
 		}
+		if strings.HasPrefix(l, "spec ghost ") {
+			if cs.GhostFields == nil {
+				cs.GhostFields = map[string]bool{}
+			}
+			for _, p := range strings.Split(l[len("spec ghost "):], ",") {
+				if p = strings.TrimSpace(p); p != "" {
+					cs.GhostFields[p] = true
+				}
+			}
+			continue
+		}
 		if strings.HasPrefix(l, "pure-externs ") {
 			for _, p := range strings.Split(l[len("pure-externs "):], ",") {
 				if p = strings.TrimSpace(p); p != "" {
@@ -182,6 +200,10 @@ func (cs *ContractSet) loadFile(path string) error {
 			if m := reLabel.FindStringSubmatch(rest); m != nil {
 				c.Label, c.Src = m[1], m[2]
 			}
+			if strings.HasPrefix(c.Src, "?") {
+				c.Optional = true
+				c.Src = strings.TrimSpace(c.Src[1:])
+			}
 			return c
 		}
 		switch kw {
@@ -189,6 +211,10 @@ func (cs *ContractSet) loadFile(path string) error {
 			cur.Requires = append(cur.Requires, mk())
 		case "ensures":
 			cur.Ensures = append(cur.Ensures, mk())
+		case "ensures!":
+			c := mk()
+			c.Trusted = true
+			cur.Ensures = append(cur.Ensures, c)
 		case "assume":
 			cur.Assumes = append(cur.Assumes, mk())
 		case "invariant":
@@ -223,11 +249,29 @@ func (cs *ContractSet) loadFile(path string) error {
 		case "nopaths":
 			cur.NoPaths = true
 		case "props":
+			cur.Props = append(cur.Props, reProp.FindAllString(rest, -1)...)
+		case "ghostset":
+			cur.GhostSets = append(cur.GhostSets, mk())
+		case "ghost":
 			for _, p := range strings.Split(rest, ",") {
 				if p = strings.TrimSpace(p); p != "" {
-					cur.Props = append(cur.Props, p)
+					cur.Ghosts = append(cur.Ghosts, p)
 				}
 			}
+		case "callassert":
+			key, e, ok := strings.Cut(rest, ":")
+			if !ok {
+				return fmt.Errorf("%s: callassert needs <callee>#<n>: <expr>", loc)
+			}
+			if cur.CallAsserts == nil {
+				cur.CallAsserts = map[string][]Clause{}
+			}
+			c := Clause{Src: strings.TrimSpace(e), Line: loc}
+			if m := reLabel.FindStringSubmatch(c.Src); m != nil {
+				c.Label, c.Src = m[1], m[2]
+			}
+			key = strings.TrimSpace(key)
+			cur.CallAsserts[key] = append(cur.CallAsserts[key], c)
 		case "trusted":
 			cur.Trusted = append(cur.Trusted, rest)
 		default:
